@@ -12,35 +12,35 @@ open OdeVerif
 -- source: odetoolbox/__init__.py :: _read_global_config
 /-- `for (key, value) in indict['options'].items():` of `_read_global_config` -/
 def readGlobalConfig_for1  : List (String × String) → Config.Store → Except Config.Store (Config.Store)
-  | [], store => .ok store
+  | [], store => Except.ok store
   | (key, value) :: rest__, store =>
     if (store.hasKey key = true) then
       let store : Config.Store := (Config.Store.set store key value)
       readGlobalConfig_for1 rest__ store
     else
-      .error store
+      Except.error store
 
 /-- `_read_global_config` -- `Config.config` is the threaded `store`; a failing `assert` (unknown option key) leaves with `.error store`: the keys written before it stay written -/
 def readGlobalConfig (store : Config.Store) (options : Option (List (String × String))) : Except Config.Store (Config.Store) :=
   if (options.isSome = true) then
     match readGlobalConfig_for1 (options.getD []) store with
-    | .error e__ => .error e__
-    | .ok store =>
-      .ok store
+    | Except.error e__ => Except.error e__
+    | Except.ok store =>
+      Except.ok store
   else
-    .ok store
+    Except.ok store
 
 -- source: odetoolbox/__init__.py :: _analysis
 /-- `_analysis` -- the option handling at the start of `_analysis`, in source order: `Config.reset()`, the early return for an input without `dynamics`, `_read_global_config` (an unknown key leaves with `.error store`), the `simplify_expression` argument (`None` or a non-empty string: `simplify`) -/
 def analysisPrologue (store : Config.Store) (hasDynamics : Bool) (options : Option (List (String × String))) (simplify : Option String) : Except Config.Store (Config.Store × Config.Prologue) :=
   let store : Config.Store := Config.defaults
   if (hasDynamics = false) then
-    .ok (store, Config.Prologue.empty)
+    Except.ok (store, Config.Prologue.empty)
   else
     match readGlobalConfig store options with
-    | .error e__ => .error e__
-    | .ok store =>
+    | Except.error e__ => Except.error e__
+    | Except.ok store =>
       let store : Config.Store := (match simplify with | some e => Config.Store.set store "simplify_expression" e | none => store)
-      .ok (store, Config.Prologue.proceed)
+      Except.ok (store, Config.Prologue.proceed)
 
 end OdeVerif.Generated
